@@ -76,3 +76,28 @@ Proof.
   - unfold wf. cbn. repeat split; try lia; repeat constructor.
   - exists 3, 2. split; [reflexivity | lia].
 Qed.
+
+(* ================================================================== extension: status_cb = None (coverage audit: out_fwd).
+   Proofs and the explicit callback flag in Reject/ProofsX.v: [run_cb cb] is the stage with (cb = true) or without
+   (cb = false) a status callback; [run_fwd] = [run_cb false] is the forward-only semantics. *)
+From PV Require Import Reject.ProofsX.
+
+(* the status callback is an observer only: what is forwarded (arrays with their metadata), what is refused and when
+   the coroutine ends is the same with and without a callback, for ALL sequences of batches (valid or not,
+   well-formed or not), thresholds and modes; the model of Reject/Model.v is the stage with a callback, and its
+   projection [out_fwd] is the forward-only run *)
+Theorem C17_status_is_observation_only : forall m t alive bs,
+  (forall cb1 cb2, map out_fwd (run_cb cb1 m t alive bs) = map out_fwd (run_cb cb2 m t alive bs)) /\
+  run_cb true m t alive bs = run m t alive bs /\
+  map out_fwd (run m t alive bs) = run_fwd m t alive bs.
+Proof. exact status_is_observation_only. Qed.
+Print Assumptions C17_status_is_observation_only.
+(* without a callback no mask is handed out *)
+Theorem C17_no_callback_no_status : forall m bs t alive f s, In (OOut f s) (run_fwd m t alive bs) -> s = [].
+Proof. exact run_fwd_status_empty. Qed.
+Print Assumptions C17_no_callback_no_status.
+(* forward-only runs of good batches forward exactly the accepted (metadata, epoch) pairs, batch k judged with the
+   k-th threshold *)
+Theorem C17_forward_only_sequences : forall m bs t, Forall good bs -> run_fwd m t true bs = map out_fwd (spec_run m t bs).
+Proof. exact run_fwd_good. Qed.
+Print Assumptions C17_forward_only_sequences.
